@@ -358,6 +358,8 @@ def part_c(ctx):
 KNOWN = {
     'F46': ('class C:\n    y = [(lambda: t)() for t in [1]]\n', None,
             'a closure inside a comprehension directly in a class body reads the comprehension variable: E02 (comprehension flows live in the class scope, which nested functions skip)'),
+    'F54': ('def f():\n    def g():\n        nonlocal x\n        x = 1\n    g()\n    print(x)\n    x = 2\nf()\n', None,
+            'a name rebound through `nonlocal` in an inner function is not visible in the enclosing function before that function\'s own textual binding: E02'),
     'F35': ('from .sub import x\nprint(sub)\n', 'pkg',
             '`from .sub import x` in a package __init__ binds `sub` in the package namespace at run time; supp reports `sub` undefined (asyncio/__init__.py idiom)'),
 }
